@@ -239,8 +239,15 @@ def elimination_constants(prog: Program, rep) -> None:
         itq = [p for p in ir.params if p != "self"][0]
         rhs = f"self.func.value_at({itq}, self.rho, self.active_set)"
         if isinstance(v, ast.Tuple) and len(v.elts) == 3:
-            t0, t1, t2 = (U(e) for e in v.elts)
-            ok = t0 == f"self.dt * {rhs}[:self.n][np.where(self.active_set)[0]]" and t1 == f"{rhs}[:self.n][np.where(np.logical_not(self.active_set))[0]]" and t2 == f"{rhs}[self.n:]"
+            from .common import unitem
+            e0, e1, e2 = (unitem(e) for e in v.elts)
+
+            def part(e, kind):
+                # rx[<active | inactive index set>] with rx = value_at(..)[:n]
+                return isinstance(e, ast.Subscript) and U(e.value) == f"{rhs}[:self.n]" and _index_kind(e.slice, "self.active_set") == kind
+            scaled = isinstance(e0, ast.BinOp) and isinstance(e0.op, ast.Mult) and (
+                (U(e0.left) == "self.dt" and part(e0.right, "active")) or (U(e0.right) == "self.dt" and part(e0.left, "active")))
+            ok = scaled and part(e1, "inactive") and U(e2) == f"{rhs}[self.n:]"
     rep.check(ok, "reduced-rhs", ir.qualname, short(r[0]) if r else "", "b0 = dt*rx[active], b1 = rx[inactive], b2 = ry of value_at(iterate, rho, active_set)", ir.loc())
     # symmetric reduced right-hand side
     cr = prog.func("pygradflow.step.solver.symmetric_step_solver.SymmetricStepSolver.compute_rhs")
@@ -562,6 +569,26 @@ def dispatch(prog: Program, rep) -> None:
     calls = [x for x in own_nodes(sym.node) if isinstance(x, ast.Call) and dotted(x.func) == "linear_solver"]
     ok = len(calls) == 1 and isinstance(kwarg(calls[0], "symmetric"), ast.Constant) and kwarg(calls[0], "symmetric").value is True
     rep.check(ok, "dispatch-exhaustive", sym.qualname, "linear_solver(..., symmetric=True)", "the symmetric formulation requests a symmetric linear solver", sym.loc())
+
+
+def _index_kind(e: ast.AST, A: str) -> Optional[str]:
+    """'active' / 'inactive' if e selects exactly the entries where the boolean mask A is set / not set: the mask itself (or its
+    negation), or np.where / np.nonzero (..)[0] / np.flatnonzero of it."""
+    def mask_kind(m):
+        t = U(m)
+        if t == A:
+            return "active"
+        if t in (f"np.logical_not({A})", f"~{A}", f"np.invert({A})"):
+            return "inactive"
+        return None
+    k = mask_kind(e)
+    if k:
+        return k
+    if isinstance(e, ast.Subscript) and const_value(e.slice) == 0 and np_call(e.value, "where", "nonzero") and len(e.value.args) == 1:
+        return mask_kind(e.value.args[0])
+    if np_call(e, "flatnonzero") and len(e.args) == 1:
+        return mask_kind(e.args[0])
+    return None
 
 
 def standard_solver(prog: Program, rep) -> None:
